@@ -67,6 +67,8 @@ impl Family for C08 {
         let strict = (index / 50) % 2 == 1;
         let pattern = PATTERNS[rng.below(5) as usize];
         if crate::giant::is_giant_index(index) {
+            // (the index selects the endianness above: draw it anew, giant indices are all odd)
+            let e = if rng.chance(1, 2) { En::BE } else { En::LE };
             let g = crate::giant::unary_only(crate::giant::gen_giant(rng));
             return S08 {
                 e,
@@ -429,18 +431,19 @@ impl Family for C08 {
     }
 
     fn rule() -> &'static str {
-        "one case = (endianness, source reader {buffered u8..u64, unbuffered} over a strict or zero-extended memory image of one of 5 patterns, destination writer word u8..u128 over a recording sink, history: 0-4 source ops incl. peeks and gamma-table reads, 0-3 destination writes, usually a peek, a copy (copy_to or copy_from, n among 0, 1..8, reader W-1/W/W+1, writer W-1/W/W+1, 63/64/65, 2W-1/2W/2W+1, 2*writerW+1, 129, random <=300), then 1-14 continuation ops: reads, peeks, unary, table reads, writes, flushes, further copies; final flush). distinct_nontrivial = distinct (endianness, reader, writer word, direction, measured source buffer fill, free bits in the destination buffer, n) copy signatures plus reader-op signatures after 0/1/2+ copies"
+        "one case = (endianness, source reader {buffered u8..u64, unbuffered} over a strict or zero-extended memory image of one of 5 patterns, destination writer word u8..u128 over a recording sink, history: 0-4 source ops incl. peeks and gamma-table reads, 0-3 destination writes, usually a peek, a copy (copy_to or copy_from, n among 0, 1..8, reader W-1/W/W+1, writer W-1/W/W+1, 63/64/65, 2W-1/2W/2W+1, 2*writerW+1, 129, random <=300), then 1-14 continuation ops: reads, peeks, unary, table reads, writes, flushes, further copies; final flush). distinct_nontrivial = distinct (endianness, reader, writer word, direction, measured source buffer fill, free bits in the destination buffer, n) copy signatures plus reader-op signatures after 0/1/2+ copies Scale scenarios: one run in 200-400 has several hundred operations or a zero run / unary part / copy / skip / slice above 2^16 bits; one run in 100 000 (sim/src/giant.rs) has a copy (copy_to or copy_from) of more than 2^32 bits from a sparse zero-run source to a sparse recording sink."
     }
 
     fn components() -> (Vec<&'static str>, Vec<&'static str>) {
         (
             vec!["BufBitReader::copy_to BE/LE (specialised or generic, per build)", "BufBitWriter::copy_from BE/LE", "BitRead::copy_to / BitWrite::copy_from generic", "BitReader", "peek_bits / table readers after a copy"],
-            vec!["recording word sink"],
+            vec!["recording word sink", "sparse recording word sink and sparse zero-run word source (scale scenarios)"],
         )
     }
 
     fn required_probes(_t: Tier) -> Vec<&'static str> {
         vec![
+            "scale.giant_copy",
             "c08.copy_with_more_than_a_word_buffered",
             "c08.copy_with_more_than_64_bits_buffered",
             "c08.copy_n_above_buffer",
